@@ -283,6 +283,11 @@ impl MultiProp {
                 p.max_cons = 3;
                 p.mode_permille = 60;
                 p.max_dom = 7;
+                p.max_vars = 8;
+                p.max_tasks = 6;
+                p.max_dur = 5;
+                p.small_dom_permille = 550;
+                p.lb_span = 3;
                 p.space_limit = if tier == Tier::Quick { 1500 } else { 8000 };
             }
             "C09" => {
@@ -308,7 +313,7 @@ impl Property for MultiProp {
     }
     fn rule(&self) -> String {
         match self.id {
-            "C08" => "1-4 cumulative tasks (interval/sparse/negative starts, views, zero durations/usages, capacity 0-4) + 0-2 side constraints, iterated under several of the 144 CumulativeOptions combinations (quick: 8 per case, rotating so that every combination is used; thorough: all 144) and compared with the definitional solution set. Non-trivial: >=2 tasks with positive duration and usage, reference set neither empty nor the full product, >=1 conflict; distinct by model hash.".into(),
+            "C08" => "1-6 cumulative tasks (interval/sparse/negative starts, about half of them with at most two start times, views, durations 0-5, usages 0-3, capacity 0-4) + 0-2 side constraints, iterated under several of the 144 CumulativeOptions combinations (quick: 8 per case, rotating so that every combination is used; thorough: all 144) and compared with the definitional solution set. Non-trivial: >=2 tasks with positive duration and usage, reference set neither empty nor the full product, >=1 conflict; distinct by model hash.".into(),
             "C09" => "1-3 constraints of every kind, 30% each posted half-reified / reified / negated with free or pre-fixed literals, iterated under 2 configurations and compared with the reference set defined by implication / equivalence / complement semantics. Non-trivial: a reified constraint whose literal takes both values in the reference set and which is neither valid nor unsatisfiable over the domains; distinct by model hash.".into(),
             _ => "one generated model x K configurations (always: default, NoLearning, restart after every conflict, delete all learned nogoods with both sortings, no minimisation; plus generated ones): each configuration's iterated solution set and optimum must equal the exhaustive reference. Non-trivial: >=2 configurations had >=3 conflicts; distinct by model hash.".into(),
         }
@@ -356,8 +361,8 @@ impl Property for MultiProp {
     }
     fn cases(&self, tier: Tier) -> u64 {
         match (self.id, tier) {
-            ("C08", Tier::Quick) => 4_000,
-            ("C08", Tier::Thorough) => 12_000,
+            ("C08", Tier::Quick) => 12_000,
+            ("C08", Tier::Thorough) => 40_000,
             ("C09", Tier::Quick) => 80_000,
             ("C09", Tier::Thorough) => 1_500_000,
             (_, Tier::Quick) => 30_000,
